@@ -544,7 +544,8 @@ class Sim:
         with self.oracle:
             obj = self.oracle_obj(i) if self.kind(i) != "ephem" else world.build_orbit(self.oracle, {k: v for k, v in self.specs[i].items() if k != "share"})
             ep = world.epoch_of(obj)
-            ls = [world.build_listener(self.oracle, self.kn["listeners"][j], self.ostations) for j in t.lidx] if not getattr(t, "via_caller_list", False) else []
+            fresh = {j: world.build_listener(self.oracle, self.kn["listeners"][j], self.ostations) for j in sorted(set(t.lidx))} if not getattr(t, "via_caller_list", False) else {}
+            ls = [fresh[j] for j in t.lidx] if fresh else []  # the same object wherever the plan lists the same listener
             kw = self.call_kwargs(self.oracle, ep, t.call, ls)
             if t.call["call"] == "visibility":
                 kw.pop("listeners", None)
